@@ -610,6 +610,18 @@ fn eval_server(sess: &mut Session, ctx: &Ctx, linters: &Value, script: &[&str], 
         out.sort();
         out
     };
+    // w25: the lints (serialised, sorted) that overlap column `c` of the first line under the configuration
+    let expected_action_lints = |text: &str, c: usize| -> Vec<String> {
+        let dict = FstDictionary::curated();
+        let lcfg = Config::from_lsp_config(cfg.clone()).unwrap();
+        let doc = Document::new_plain_english(text, &dict);
+        let mut g = LintGroup::new_curated(dict.clone(), lcfg.dialect).with_lint_config(lcfg.lint_config.clone());
+        g.config.fill_with_curated();
+        let at = harper_core::Span::new(c, c + 1); // first line, BMP text: column = char index
+        let mut out: Vec<String> = g.lint(&doc).iter().filter(|l| l.span.overlaps_with(at)).map(|l| serde_json::to_value(l).map(|v| v.to_string()).unwrap_or_default()).collect();
+        out.sort();
+        out
+    };
     let show = |v: &Value| -> Vec<String> {
         let mut out: Vec<String> = v.as_array().map(|a| a.iter().map(|d| format!("{}:{}-{}:{} {}", d["range"]["start"]["line"], d["range"]["start"]["character"], d["range"]["end"]["line"], d["range"]["end"]["character"], d["message"].as_str().unwrap_or(""))).collect()).unwrap_or_default();
         out.sort();
@@ -639,7 +651,28 @@ fn eval_server(sess: &mut Session, ctx: &Ctx, linters: &Value, script: &[&str], 
                 let n = cur.as_ref().map(|t| t.lines().next().unwrap_or("").chars().count()).unwrap_or(0);
                 for c in (0..n).step_by(4) {
                     let params = json!({"textDocument": {"uri": uri}, "range": {"start": {"line": 0, "character": c}, "end": {"line": 0, "character": c + 1}}, "context": {"diagnostics": []}});
-                    ls.request_sync("textDocument/codeAction", params, &cfg)?;
+                    let resp = ls.request_sync("textDocument/codeAction", params, &cfg)?;
+                    // w25: the code actions come from a lint pass of their own (generate_code_actions):
+                    // the lints they are offered for (each carries its lint in its HarperIgnoreLint
+                    // command) are exactly harper-core's lints under this configuration at that column
+                    if let Some(t) = &cur {
+                        let want = expected_action_lints(t, c);
+                        let mut got: Vec<String> = resp["result"].as_array().map(|a| a.iter().filter(|x| x["command"].as_str() == Some("HarperIgnoreLint")).map(|x| x["arguments"][1].to_string()).collect()).unwrap_or_default();
+                        got.sort();
+                        sess.o();
+                        sess.count(&format!("server:code-action-lints:{}", want.len().min(3)));
+                        if got != want {
+                            let show = |v: &[String]| v.iter().map(|s| serde_json::from_str::<Value>(s).map(|l| l["message"].as_str().unwrap_or("").to_string()).unwrap_or_default()).take(3).collect::<Vec<_>>();
+                            sess.fail(
+                                "server-action-switch-not-obeyed",
+                                format!("through the real Backend, linters = {}: after {:?} the code actions at column {} of {:?} are offered for {} lint(s) {:?}; harper-core under this configuration has {} there {:?}", linters, done, c, t, got.len(), show(&got), want.len(), show(&want)),
+                                json!({"kind": "server", "linters": linters, "script": script, "texts": texts}),
+                                None,
+                            );
+                            ls.shutdown(&cfg)?;
+                            return Ok(());
+                        }
+                    }
                 }
             }
             "close" => {
@@ -721,6 +754,384 @@ fn eval_js(sess: &mut Session, linters: &Value, texts: &[String]) {
     sess.count("origin:js-session");
 }
 
+// =============================================================================================
+// w25 — oracle-only additions (notes/asbuilt_w25_C11.md): the switch clauses read WITHOUT per-rule
+// tables on groups of every dialect, over a merged dictionary with user words, on documents of
+// every language of the server and on text families the rule-test sentences do not contain; the
+// group-level entry points (`set_all_rules_to`, `new_curated_empty_config`, `with_lint_config`);
+// the JS API in Markdown, in other dialects and across `import_words`, and its JSON round trip;
+// code actions at the server.
+
+fn ms_l(ls: &[Lint]) -> BTreeMap<String, usize> {
+    multiset(ls)
+}
+
+fn ms_add(a: &BTreeMap<String, usize>, b: &BTreeMap<String, usize>) -> BTreeMap<String, usize> {
+    let mut m = a.clone();
+    for (k, v) in b {
+        *m.entry(k.clone()).or_insert(0) += v;
+    }
+    m
+}
+
+struct LightResult {
+    fails: Vec<(String, String)>,
+    o_cases: usize,
+    counts: Vec<String>,
+    nontrivial: bool,
+    skipped: bool,
+}
+
+/// The clauses that need no per-rule table, on ONE new group per configuration (so that nothing
+/// here depends on C05): dialect × dictionary × document language × text.
+fn eval_light_on<D: harper_core::Dictionary + 'static>(dict: &std::sync::Arc<D>, dialect: harper_core::Dialect, id: &str, text: &str, seed: u64, unknown: &[String]) -> LightResult {
+    use harper_core::linting::LintGroup;
+    let mut res = LightResult { fails: vec![], o_cases: 0, counts: vec![], nontrivial: false, skipped: false };
+    let mut rng = Rng(seed);
+    let doc = crate::frontends::parser_for(id, false).and_then(|p| guarded(|| harper_core::Document::new(text, &p, &**dict)).ok());
+    let Some(doc) = doc else {
+        res.skipped = true;
+        return res;
+    };
+    let lint_under = |cfg: LintGroupConfig| -> Option<Vec<Lint>> {
+        let mut g = LintGroup::new_curated(dict.clone(), dialect).with_lint_config(cfg);
+        guarded(|| g.lint(&doc)).ok()
+    };
+    let names: Vec<String> = LintGroup::new_curated(dict.clone(), dialect).iter_keys().map(|s| s.to_string()).collect::<std::collections::BTreeSet<_>>().into_iter().collect();
+    let on: CfgMap = names.iter().map(|n| (n.clone(), Some(true))).collect();
+    // group-level entry points
+    {
+        let mut g = LintGroup::new_curated(dict.clone(), dialect);
+        g.set_all_rules_to(Some(true));
+        res.o_cases += 1;
+        if from_real(&g.config) != on {
+            res.fails.push(("set-all-rules".into(), "set_all_rules_to(Some(true)) does not give every registered rule the value true".into()));
+        }
+        g.set_all_rules_to(Some(false));
+        res.o_cases += 1;
+        match guarded(|| g.lint(&doc)) {
+            Ok(l) if !l.is_empty() => res.fails.push(("all-off-lints".into(), format!("every rule switched off (set_all_rules_to(Some(false))), still {} lint(s): {:?}", l.len(), l.iter().map(|l| (l.span.start, l.span.end, l.message.clone())).take(3).collect::<Vec<_>>()))),
+            _ => {}
+        }
+        g.set_all_rules_to(None);
+        res.o_cases += 1;
+        if names.iter().any(|n| from_real(&g.config).contains_key(n)) {
+            res.fails.push(("set-all-rules".into(), "set_all_rules_to(None) leaves a registered rule mentioned".into()));
+        }
+        // an explicit off for every rule as a user configuration overlaid on the curated defaults
+        let mut u = to_real(&names.iter().map(|n| (n.clone(), Some(false))).collect::<CfgMap>());
+        u.fill_with_curated();
+        res.o_cases += 1;
+        if let Some(l) = lint_under(u) {
+            if !l.is_empty() {
+                res.fails.push(("all-off-lints".into(), format!("every rule explicitly off, overlaid on the curated defaults: still {} lint(s)", l.len())));
+            }
+        }
+    }
+    let Some(all) = lint_under(to_real(&on)) else {
+        res.skipped = true;
+        return res;
+    };
+    res.counts.push(format!("light:lints-all-on:{}", all.len().min(9)));
+    // which switches matter here: the hot ones and a few random ones
+    let mut picks: Vec<String> = ["SpellCheck", "SentenceCapitalization", "RepeatedWords", "AnA", "LongSentences", "Spaces", "SpelledNumbers"].iter().map(|s| s.to_string()).filter(|n| names.contains(n)).collect();
+    for _ in 0..3 {
+        picks.push(rng.pick(&names).clone());
+    }
+    let mut fired = 0;
+    for r in &picks {
+        let mut off = on.clone();
+        let how = rng.below(3);
+        match how {
+            0 => {
+                off.remove(r);
+            }
+            1 => {
+                off.insert(r.clone(), None);
+            }
+            _ => {
+                off.insert(r.clone(), Some(false));
+            }
+        }
+        let alone: CfgMap = [(r.clone(), Some(true))].into_iter().collect();
+        let (Some(l_off), Some(l_alone)) = (lint_under(to_real(&off)), lint_under(to_real(&alone))) else { continue };
+        res.o_cases += 1;
+        if !l_alone.is_empty() {
+            fired += 1;
+        }
+        // switching r off removes exactly r's own lints and leaves the others as they were, in order
+        if !is_subsequence(&l_off, &all) || ms_l(&all) != ms_add(&ms_l(&l_off), &ms_l(&l_alone)) {
+            res.fails.push(("light-toggle".into(), format!("rule {} ({}): all rules on give {} lints, all but {} give {}, {} alone gives {} — not (others unchanged) + (its own)", r, ["absent", "null", "off"][how], all.len(), r, l_off.len(), r, l_alone.len())));
+        }
+    }
+    // a partition of all switches into two halves
+    {
+        let mut h1 = CfgMap::new();
+        let mut h2 = CfgMap::new();
+        for n in &names {
+            if rng.chance(1, 2) { h1.insert(n.clone(), Some(true)); } else { h2.insert(n.clone(), Some(true)); }
+        }
+        // explicit off for the other half in h1, nothing in h2: both spellings of "off"
+        for n in h2.keys() {
+            h1.insert(n.clone(), Some(false));
+        }
+        if let (Some(a), Some(b)) = (lint_under(to_real(&h1)), lint_under(to_real(&h2))) {
+            res.o_cases += 1;
+            if ms_l(&all) != ms_add(&ms_l(&a), &ms_l(&b)) || !is_subsequence(&a, &all) || !is_subsequence(&b, &all) {
+                res.fails.push(("light-partition".into(), format!("all rules on give {} lints, the two halves of a partition {} + {}", all.len(), a.len(), b.len())));
+            }
+        }
+    }
+    // unknown names are harmless
+    {
+        let mut with = on.clone();
+        for u in unknown {
+            with.insert(u.clone(), Some(rng.chance(1, 2)));
+        }
+        if let Some(l) = lint_under(to_real(&with)) {
+            res.o_cases += 1;
+            if l != all {
+                res.fails.push(("light-unknown-key".into(), format!("unknown rule names changed the lints ({} vs {})", l.len(), all.len())));
+            }
+        }
+    }
+    // a sparse user configuration overlaid on the curated defaults = the curated group with exactly those switches changed
+    {
+        let mut user = CfgMap::new();
+        for r in picks.iter().take(5) {
+            user.insert(r.clone(), if rng.chance(1, 4) { None } else { Some(rng.chance(1, 2)) });
+        }
+        let mut filled = to_real(&user);
+        filled.fill_with_curated();
+        let mut by_hand = LintGroupConfig::new_curated();
+        for (k, v) in &user {
+            if let Some(b) = v {
+                by_hand.set_rule_enabled(k, *b);
+            }
+        }
+        if let (Some(a), Some(b)) = (lint_under(filled), lint_under(by_hand)) {
+            res.o_cases += 1;
+            if a != b {
+                res.fails.push(("light-overlay".into(), format!("user configuration {:?} overlaid on the curated defaults gives {} lints, the curated defaults with those switches set by hand {}", user, a.len(), b.len())));
+            }
+        }
+    }
+    res.nontrivial = fired >= 2;
+    res
+}
+
+fn eval_light(dialect: harper_core::Dialect, words: &[String], id: &str, text: &str, seed: u64, unknown: &[String]) -> LightResult {
+    if words.is_empty() { eval_light_on(&harper_core::FstDictionary::curated(), dialect, id, text, seed, unknown) } else { eval_light_on(&crate::c05::user_merged(words), dialect, id, text, seed, unknown) }
+}
+
+fn light_stream(sess: &mut Session, rng: &mut Rng, gen_: &Gen, thorough: bool, only: Option<&Value>) {
+    let words: Vec<String> = crate::c05::USER_WORDS.iter().map(|s| s.to_string()).collect();
+    let mut jobs: Vec<(harper_core::Dialect, Vec<String>, String, &'static str, String, u64)> = vec![];
+    if let Some(v) = only {
+        let w: Vec<String> = serde_json::from_value(v["words"].clone()).unwrap_or_default();
+        jobs.push((crate::c05::dialect_of(v["dialect"].as_str().unwrap_or("")), w, v["lang"].as_str().unwrap_or("plaintext").to_string(), "replay", v["text"].as_str().unwrap_or("").to_string(), v["seed"].as_u64().unwrap_or(1)));
+    } else {
+        let fams = crate::c05::family_texts(thorough);
+        let langs: Vec<String> = crate::c05::XLANGS.iter().filter(|id| crate::frontends::parser_for(id, false).is_some()).map(|s| s.to_string()).collect();
+        let n = if thorough { 400 } else { 48 };
+        for i in 0..n {
+            let d = crate::c05::DIALECTS[i % 4].0;
+            let w = if (i / 4) % 2 == 0 { vec![] } else { words.clone() };
+            let (tag, prose) = fams[(i / 8 + i) % fams.len()].clone();
+            let id = if i % 3 == 0 { "plaintext".to_string() } else { rng.pick(&langs).clone() };
+            let text = crate::frontends::embed(&id, &prose, rng.below(4));
+            jobs.push((d, w, id, tag, text, rng.next()));
+        }
+    }
+    let results = par_map(jobs.len(), 16, |i| eval_light(jobs[i].0, &jobs[i].1, &jobs[i].2, &jobs[i].4, jobs[i].5, &gen_.unknown));
+    for (r, (d, w, id, tag, text, seed)) in results.into_iter().zip(jobs.iter()) {
+        for _ in 0..r.o_cases.max(1) {
+            sess.o();
+        }
+        if r.skipped {
+            sess.count("light:skipped(front-end or all-on group panicked)");
+            continue;
+        }
+        sess.count(&format!("light:dialect:{}", crate::c05::dialect_name(*d)));
+        sess.count(if w.is_empty() { "light:dictionary:curated" } else { "light:dictionary:merged-with-user-words" });
+        sess.count(&format!("light:lang:{}", id));
+        sess.count(&format!("light:family:{}", tag));
+        for c in &r.counts {
+            sess.count(c);
+        }
+        if r.nontrivial {
+            sess.nontrivial(&format!("light|{}|{}|{}|{}", crate::c05::dialect_name(*d), w.len(), id, text));
+        }
+        for (class, desc) in r.fails {
+            sess.fail(&class, format!("dialect {}, user words {:?}, language {}: {}", crate::c05::dialect_name(*d), w, id, desc), json!({"kind": "light", "dialect": crate::c05::dialect_name(*d), "words": w, "lang": id, "text": text, "seed": seed}), None);
+        }
+    }
+}
+
+/// The JS API beyond plain American text: Markdown, other dialects, user words imported between
+/// lints (the rebuild must keep the switches), and the configuration's JSON round trip through
+/// `get_lint_config_as_json` / `set_lint_config_from_json` of a second Linter.
+fn eval_js_ext(sess: &mut Session, linters: &Value, texts: &[String]) {
+    use crate::c05::WOp;
+    use harper_wasm::{Dialect as WDialect, Linter as WLinter};
+    let inp = |what: &str| json!({"kind": "js-ext", "linters": linters, "texts": texts, "what": what});
+    // round trip
+    if let Ok(Ok((a, b, c))) = guarded(|| -> Result<(Value, Value, Value), String> {
+        let mut one = WLinter::new(WDialect::American);
+        one.set_lint_config_from_json(linters.to_string())?;
+        let a = one.get_lint_config_as_json();
+        let mut two = WLinter::new(WDialect::British);
+        two.set_lint_config_from_json(a.clone())?;
+        let b = two.get_lint_config_as_json();
+        // and through import_words (rebuilds the group)
+        one.import_words(vec!["tset".to_string()]);
+        let c = one.get_lint_config_as_json();
+        Ok((serde_json::from_str(&a).unwrap_or(Value::Null), serde_json::from_str(&b).unwrap_or(Value::Null), serde_json::from_str(&c).unwrap_or(Value::Null)))
+    }) {
+        sess.o();
+        if a != b {
+            sess.fail("js-config-roundtrip", format!("linters = {}: get_lint_config_as_json of one Linter, set on a second one, reads back differently", linters), inp("roundtrip"), None);
+        }
+        sess.o();
+        if a != c {
+            sess.fail("js-config-changed-by-import", format!("linters = {}: get_lint_config_as_json differs after import_words", linters), inp("import"), None);
+        }
+        // what was set is what is read: every explicit choice is there, nothing else has a value
+        sess.o();
+        let explicit: BTreeMap<String, bool> = linters.as_object().map(|o| o.iter().filter_map(|(k, v)| v.as_bool().map(|b| (k.clone(), b))).collect()).unwrap_or_default();
+        let read: BTreeMap<String, bool> = a.as_object().map(|o| o.iter().filter_map(|(k, v)| v.as_bool().map(|b| (k.clone(), b))).collect()).unwrap_or_default();
+        if explicit != read {
+            sess.fail("js-config-readback", format!("linters = {}: the explicit choices read back are {:?}", linters, read), inp("readback"), None);
+        }
+    }
+    // switches obeyed in Markdown, in every dialect, before and after import_words
+    for (i, (d, _)) in crate::c05::DIALECTS.iter().enumerate() {
+        let mut ops = vec![WOp::SetCfg(linters.to_string())];
+        for (j, t) in texts.iter().enumerate() {
+            ops.push(WOp::Lint(t.clone(), (i + j) % 2 == 0));
+        }
+        ops.push(WOp::Import(vec!["tset".to_string(), "Wrods".to_string()]));
+        for (j, t) in texts.iter().enumerate() {
+            ops.push(WOp::Lint(t.clone(), (i + j) % 2 == 1));
+        }
+        sess.o();
+        sess.count(&format!("js-ext:dialect:{}", crate::c05::dialect_name(*d)));
+        match crate::c05::eval_wasm_dict(*d, &ops) {
+            Ok(None) => sess.nontrivial(&format!("js-ext|{}|{}", linters, i)),
+            Ok(Some((_, desc))) => sess.fail("js-switch-not-obeyed", desc, json!({"kind": "js-ext", "linters": linters, "texts": texts, "dialect": crate::c05::dialect_name(*d), "what": "lint"}), None),
+            Err(_) => sess.count("js-ext:panicked(skipped)"),
+        }
+    }
+}
+
+/// The switches at the COMMAND LINE (`harper-cli lint --count --only-lint-with R …`, the real
+/// executable, built like C13 does): only the named rules contribute — the count under a set of
+/// rules is the sum of the counts under each rule alone, equals harper-core's count under that
+/// configuration, and an unknown rule name changes nothing.
+fn cli_stream(sess: &mut Session, ctx: &Ctx, rng: &mut Rng, thorough: bool) {
+    use harper_core::linting::LintGroup;
+    let target = std::path::PathBuf::from(env!("CARGO_MANIFEST_DIR")).join("target").join("lsbin");
+    let built = std::process::Command::new("cargo")
+        .args(["build", "--offline", "--locked", "-p", "harper-cli", "--manifest-path", "/repo/Cargo.toml", "--target-dir"])
+        .arg(&target)
+        .env("CARGO_NET_OFFLINE", "true")
+        .stdout(std::process::Stdio::null())
+        .stderr(std::process::Stdio::null())
+        .status()
+        .map(|s| s.success())
+        .unwrap_or(false);
+    sess.count(if built { "cli:built" } else { "cli:not-built(stream skipped)" });
+    if !built {
+        return;
+    }
+    let bin = target.join("debug").join("harper-cli");
+    let dir = ctx.out.join("c11-cli");
+    let _ = std::fs::create_dir_all(&dir);
+    let dict = harper_core::FstDictionary::curated();
+    let texts = [
+        "There is a tset here, and we bought 3 apples. this is very boring, and it is an test of the the thing.\n",
+        "He held his baited **breath** again; back in the days it were a alot worse then, and teh end is is near.\n",
+        "Teh café was naïve — teh résumé 😀 is an test.\r\nthe the end\r\n",
+    ];
+    let hot = ["SpellCheck", "RepeatedWords", "AnA", "SentenceCapitalization", "SpelledNumbers", "BoringWords", "BaitedBreath", "ALot"];
+    let count_of = |file: &std::path::Path, rules: &[String], dialect: &str| -> Option<usize> {
+        let mut cmd = std::process::Command::new(&bin);
+        cmd.arg("lint").arg(file).arg("--count").arg("--dialect").arg(dialect).arg("--user-dict-path").arg(dir.join("no_user_dict.txt")).arg("--file-dict-path").arg(dir.join("no_file_dicts"));
+        for r in rules {
+            cmd.arg("--only-lint-with").arg(r);
+        }
+        let out = cmd.output().ok()?;
+        String::from_utf8_lossy(&out.stdout).lines().last()?.trim().parse::<usize>().ok()
+    };
+    let nsets = if thorough { 6 } else { 1 };
+    // the cases first, then every invocation of the executable side by side (a debug build of
+    // harper-cli spends > 1 s loading the dictionary)
+    let mut cases: Vec<(usize, std::path::PathBuf, harper_core::Dialect, &'static str, Vec<String>)> = vec![];
+    for (ti, text) in texts.iter().enumerate() {
+        let file = dir.join(format!("input{}.md", ti));
+        let _ = std::fs::write(&file, text);
+        for si in 0..nsets {
+            let (dialect, dname) = crate::c05::DIALECTS[(ti + si) % 4];
+            let mut rules: Vec<String> = vec![];
+            for _ in 0..rng.range(2, 3) {
+                let r = rng.pick(&hot).to_string();
+                if !rules.contains(&r) {
+                    rules.push(r);
+                }
+            }
+            cases.push((ti, file.clone(), dialect, dname, rules));
+        }
+    }
+    let mut queries: Vec<(usize, Vec<String>)> = vec![];
+    for (ci, c) in cases.iter().enumerate() {
+        queries.push((ci, c.4.clone()));
+        for r in &c.4 {
+            queries.push((ci, vec![r.clone()]));
+        }
+        let mut with = c.4.clone();
+        with.push("NoSuchRule".to_string());
+        queries.push((ci, with));
+    }
+    let answers: Vec<Option<usize>> = par_map(queries.len(), 16, |i| count_of(&cases[queries[i].0].1, &queries[i].1, cases[queries[i].0].3));
+    let mut qi = 0;
+    for (ti, _, dialect, dname, rules) in &cases {
+        let text = texts[*ti];
+        let whole = answers[qi];
+        let alone: Vec<Option<usize>> = answers[qi + 1..qi + 1 + rules.len()].to_vec();
+        let unknown = answers[qi + 1 + rules.len()];
+        qi += rules.len() + 2;
+        let inp = json!({"kind": "cli", "text": text, "rules": rules, "dialect": dname});
+        let Some(whole) = whole else {
+            sess.count("cli:no-count(skipped)");
+            continue;
+        };
+        sess.o();
+        sess.count("origin:cli");
+        if alone.iter().all(|a| a.is_some()) && whole != alone.iter().map(|a| a.unwrap()).sum::<usize>() {
+            sess.fail("cli-combination", format!("harper-cli lint --count ({}) on {:?}: --only-lint-with {:?} counts {}, each rule alone {:?}", dname, text, rules, whole, alone), inp.clone(), None);
+        }
+        // harper-core under the same configuration (Markdown file, curated dictionary)
+        let doc = harper_core::Document::new_markdown_default(text, &dict);
+        let mut g = LintGroup::new_curated(dict.clone(), *dialect);
+        g.config = to_real(&rules.iter().map(|r| (r.clone(), Some(true))).collect::<CfgMap>());
+        if let Ok(want) = guarded(|| g.lint(&doc)) {
+            sess.o();
+            if want.len() != whole {
+                sess.fail("cli-switch-not-obeyed", format!("harper-cli lint --count ({}) on {:?}: --only-lint-with {:?} counts {}, harper-core with exactly these rules on {}", dname, text, rules, whole, want.len()), inp.clone(), None);
+            } else if whole > 0 {
+                sess.nontrivial(&format!("cli|{}|{:?}|{}", ti, rules, dname));
+            }
+        }
+        // an unknown name is harmless
+        if let Some(n) = unknown {
+            sess.o();
+            if n != whole {
+                sess.fail("cli-unknown-key", format!("harper-cli lint --count on {:?}: adding --only-lint-with NoSuchRule to {:?} changes the count {} → {}", text, rules, whole, n), inp.clone(), None);
+            }
+        }
+    }
+}
+
 fn run_server(sess: &mut Session, ctx: &Ctx, only: Option<(&Value, Vec<String>, Vec<String>)>) {
     let texts: Vec<String> = vec![
         "There is a tset here, and we bought 3 apples. this is very boring, and it is an test.".into(),
@@ -751,6 +1162,7 @@ fn run_server(sess: &mut Session, ctx: &Ctx, only: Option<(&Value, Vec<String>, 
                 sess.count("origin:server-session");
             }
             eval_js(sess, l, &texts);
+            eval_js_ext(sess, l, &texts);
         }
     }
     sess.monitor("the in-process language server completed the C11 sessions", ok);
@@ -804,6 +1216,11 @@ pub fn run(ctx: &Ctx) {
                 let tx: Vec<String> = serde_json::from_value(v["texts"].clone()).unwrap_or_default();
                 eval_js(&mut sess, &v["linters"], &tx);
             }
+            "js-ext" => {
+                let tx: Vec<String> = serde_json::from_value(v["texts"].clone()).unwrap_or_default();
+                eval_js_ext(&mut sess, &v["linters"], &tx);
+            }
+            "light" => light_stream(&mut sess, &mut rng, &gen_, false, Some(&v)),
             "server" => {
                 let sc: Vec<String> = serde_json::from_value(v["script"].clone()).unwrap_or_default();
                 let tx: Vec<String> = serde_json::from_value(v["texts"].clone()).unwrap_or_default();
@@ -924,12 +1341,24 @@ pub fn run(ctx: &Ctx) {
     for r in results {
         absorb(&mut sess, &mut hloc, r);
     }
+    // ---- w25: the switches at the command line (before the server stream points HOME elsewhere: cargo needs it)
+    {
+        let t0 = std::time::Instant::now();
+        cli_stream(&mut sess, ctx, &mut rng, ctx.tier == Tier::Thorough);
+        sess.add("cli:ms", t0.elapsed().as_millis() as u64);
+    }
     // ---- the switches at the server (real Backend, explicit user choices, code actions between publications)
     run_server(&mut sess, ctx, None);
+    // ---- w25: the table-free clauses over dialects × dictionaries × document languages × text families
+    {
+        let t0 = std::time::Instant::now();
+        light_stream(&mut sess, &mut rng, &gen_, ctx.tier == Tier::Thorough, None);
+        sess.add("light:ms", t0.elapsed().as_millis() as u64);
+    }
     sess.add("hloc:chunk-contents-checked", hloc.checked);
     sess.add("hloc:chunk-contents-seen-again", hloc.repeated);
     sess.finish(
-        "corpus; exhaustive: merge_from over all pairs of configurations on 3 keys × {absent,null,off,on}, every single operation on all 64 such configurations × 4 keys, fill_with_curated of all 64 user configurations over (curated-on rule, curated-off rule, unknown key), merge orders over 16³ triples; random op sequences / merges / fills with the real rule names and hostile unknown keys; serde_json round trip and Config::from_lsp_config; lint_is_combination: 1–3 rule-test sentences (plain / Markdown), every rule run alone on new groups, ≥10 combined configurations per document (all-on, curated+user, firing-only, sparse, dense, toggle pairs, partitions, unknown keys); the switches at the server: 5 user configurations × 4 scripts of didOpen / didChange / codeAction / didClose through the real Backend, every publication = harper-core's lints under that configuration; the same configurations through harper_wasm::Linter (set_lint_config_from_json → lint ×3 → get_lint_config_as_json unchanged). Non-trivial = op sequences of >1 op, merges with a Some value, documents on which ≥2 rules fire.",
+        "corpus; exhaustive: merge_from over all pairs of configurations on 3 keys × {absent,null,off,on}, every single operation on all 64 such configurations × 4 keys, fill_with_curated of all 64 user configurations over (curated-on rule, curated-off rule, unknown key), merge orders over 16³ triples; random op sequences / merges / fills with the real rule names and hostile unknown keys; serde_json round trip and Config::from_lsp_config; lint_is_combination: 1–3 rule-test sentences (plain / Markdown), every rule run alone on new groups, ≥10 combined configurations per document (all-on, curated+user, firing-only, sparse, dense, toggle pairs, partitions, unknown keys); the switches at the server: 5 user configurations × 4 scripts of didOpen / didChange / codeAction / didClose through the real Backend, every publication = harper-core's lints under that configuration; the same configurations through harper_wasm::Linter (set_lint_config_from_json → lint ×3 → get_lint_config_as_json unchanged); w25 (oracle only): at every codeAction request the lints the actions are offered for = harper-core's lints under the configuration at that column; the JS API in Markdown, in all four dialects and across import_words, its configuration read back / round-tripped through a second Linter / unchanged by import_words; table-free clauses (all-off gives nothing, set_all_rules_to, toggle = others unchanged + own lints, partition, unknown keys, overlay = defaults with the explicit choices) on new groups of every dialect × {curated, merged with user words} × the server's document languages × text families (non-ASCII, CRLF, empty, long, repetitive …); the real harper-cli executable: lint --count --only-lint-with R… = sum of each R alone = harper-core with exactly those rules on, unknown names change nothing, in all four dialects. Non-trivial = op sequences of >1 op, merges with a Some value, documents on which ≥2 rules fire.",
         true,
         json!({"switch_names": all.len(), "names_in_both_rule_maps": shared, "whole_document_rules": names.doc.len(), "pattern_rules": names.pat.len(), "cache_capacity": cap, "cache_capacity_from_source": cap_ok,
                "exhaustive_scope": "merge: 64×64 configurations on 3 keys; single ops: 64 configurations × 4 keys × 6 ops; fill: 64 user configurations; merge order: 16×16×16"}),
